@@ -15,16 +15,25 @@ func init() { registry["C14"] = checkC14 }
 // For completion every declaration gets a unique name derived from TLC's declaration id, and every occurrence is
 // spelled with the name of the declaration TLC binds it to (globals: "pg" + their model name). The renderer thus
 // needs no scoping knowledge; shadowing disappears, visibility (which is what completion is about) is unchanged.
-func c14Name(id int) string     { return fmt.Sprintf("p%c%d", 'a'+rune(id%3), id) }
-func c14Global(n string) string { return "pg" + n }
+func c14Name(id int) string     { return c14NameP("p", id) }
+func c14Global(n string) string { return c14GlobalP("p", n) }
 
-func c14Rename(tc *scCase) []scItem {
+// (with another leading word: names that begin with a word the completion also knows as keyword or snippet)
+func c14NameP(pre string, id int) string     { return fmt.Sprintf("%s%c%d", pre, 'a'+rune(id%3), id) }
+func c14GlobalP(pre string, n string) string { return pre + "g" + n }
+
+// c14Prefixes: the leading words of the generated names; one is chosen per program.
+var c14Prefixes = []string{"p", "p", "p", "do", "if", "for", "while", "fun", "el", "re"}
+
+func c14Rename(tc *scCase) []scItem { return c14RenameP(tc, "p") }
+
+func c14RenameP(tc *scCase, pre string) []scItem {
 	items := append([]scItem{}, tc.Items...)
 	nm := func(n string, b int) string {
 		if b > 0 {
-			return c14Name(b)
+			return c14NameP(pre, b)
 		}
-		return c14Global(n)
+		return c14GlobalP(pre, n)
 	}
 	for i := range items {
 		it := &items[i]
@@ -33,13 +42,13 @@ func c14Rename(tc *scCase) []scItem {
 			if it.U != "-" && it.U != "" {
 				it.U = nm(it.U, it.B)
 			}
-			it.N = c14Name(it.ID)
+			it.N = c14NameP(pre, it.ID)
 		case "local2":
 			it.U = nm(it.U, it.B)
-			it.N = c14Name(it.ID)
-			it.M = c14Name(it.Mid)
+			it.N = c14NameP(pre, it.ID)
+			it.M = c14NameP(pre, it.Mid)
 		case "require":
-			it.N = c14Name(it.ID)
+			it.N = c14NameP(pre, it.ID)
 		case "use", "while", "if", "elseif", "until", "ret":
 			it.U = nm(it.U, it.B)
 		case "assign":
@@ -52,21 +61,21 @@ func c14Rename(tc *scCase) []scItem {
 			it.N = nm(it.N, it.Nb)
 			it.M = nm(it.M, it.Mb)
 		case "lfunc", "lefunc":
-			it.N = c14Name(it.ID)
-			it.P = c14Name(it.Pid)
+			it.N = c14NameP(pre, it.ID)
+			it.P = c14NameP(pre, it.Pid)
 		case "gfunc":
 			it.N = nm(it.N, it.Nb)
-			it.P = c14Name(it.Pid)
+			it.P = c14NameP(pre, it.Pid)
 		case "iassign":
 			it.T = nm(it.T, it.Tb)
 			it.U = nm(it.U, it.B)
 		case "cfunc", "cchain":
-			it.P = c14Name(it.Pid)
+			it.P = c14NameP(pre, it.Pid)
 		case "muse":
 			it.T = nm(it.T, it.Tb)
 		case "meth":
 			it.T = nm(it.T, it.Tb)
-			it.P = c14Name(it.Pid)
+			it.P = c14NameP(pre, it.Pid)
 		}
 		it.Alt, it.Altn, it.Altt = nil, nil, nil
 	}
@@ -87,6 +96,7 @@ type c14Cursor struct {
 }
 
 type c14Data struct {
+	pre   string // leading word of the generated names
 	tc    *scCase
 	items []scItem
 	r     *scRender
@@ -109,14 +119,16 @@ func c14Build(seed int64) func(id int, raw json.RawMessage) *Job {
 		if json.Unmarshal(raw, &tc) != nil {
 			return nil
 		}
-		items := c14Rename(&tc)
+		pre := c14Prefixes[int(hash64(string(raw), scSeed)>>23)%len(c14Prefixes)]
+		np := len(pre)
+		items := c14RenameP(&tc, pre)
 		mode := scModeOf(raw, scSeed)
 		r := scRenderMode(items, mode)
 		pc := &proto.Case{ID: id, Files: r.files(), Init: json.RawMessage(allOnLocal)}
 		for i, f := range r.Files {
 			pc.Steps = append(pc.Steps, openStep(f, r.Text[i]))
 		}
-		d := &c14Data{tc: &tc, r: r, items: items}
+		d := &c14Data{pre: pre, tc: &tc, r: r, items: items}
 		// candidate cursor points: before each item's line (inside whatever block is open there), and the end of the last file
 		// (one-line layout: the same points, the prefix is typed between two statements of the line)
 		type pt struct {
@@ -147,7 +159,13 @@ func c14Build(seed int64) func(id int, raw json.RawMessage) *Job {
 		}
 		sort.Ints(idx)
 		ver := 2
+		// a leading word that is a keyword cannot be typed on its own without changing what the text is (`while` alone is the
+		// keyword): such programs are only asked inside their existing identifiers, below
+		kw := pre == "do" || pre == "if" || pre == "for" || pre == "while"
 		for _, k := range idx {
+			if kw {
+				break
+			}
 			p := pts[k]
 			if tcItemIsCloser(items, p.file, p.line) {
 				// closers were appended by TLC after the last real statement: the stack there is not recorded per closer
@@ -155,46 +173,46 @@ func c14Build(seed int64) func(id int, raw json.RawMessage) *Job {
 			}
 			f := r.Files[p.file]
 			cu := c14Cursor{file: p.file, line: p.line, vis: p.vis, pend: p.pend}
-			cu.prefix2 = "p" + string(rune('a'+int(hv>>7)%3))
+			cu.prefix2 = pre + string(rune('a'+int(hv>>7)%3))
 			if mode == 1 {
 				// one-line layout: an editor types "p " in front of the statement (or " p" after the last one), asks,
 				// types one more letter, asks, then removes what it typed
-				ln, col, ins := 0, p.col, "p "
+				ln, col, ins := 0, p.col, pre+" "
 				if col < 0 {
 					ll := 0
 					if len(r.Lines[p.file]) > 0 {
 						ll = len(r.Lines[p.file][0])
 					}
-					col, ins = ll+1, " p"
+					col, ins = ll+1, " "+pre
 					pc.Steps = append(pc.Steps, changeStep(f, ver, ln, col-1, ln, col-1, ins))
 				} else {
 					pc.Steps = append(pc.Steps, changeStep(f, ver, ln, col, ln, col, ins))
 				}
 				ver++
 				cu.line, cu.col = ln, col
-				pc.Steps = append(pc.Steps, proto.Step{M: "textDocument/completion", P: compParams(f, ln, col+1)})
+				pc.Steps = append(pc.Steps, proto.Step{M: "textDocument/completion", P: compParams(f, ln, col+np)})
 				cu.stepP = len(pc.Steps) - 1
-				pc.Steps = append(pc.Steps, changeStep(f, ver, ln, col+1, ln, col+1, cu.prefix2[1:]))
+				pc.Steps = append(pc.Steps, changeStep(f, ver, ln, col+np, ln, col+np, cu.prefix2[np:]))
 				ver++
-				pc.Steps = append(pc.Steps, proto.Step{M: "textDocument/completion", P: compParams(f, ln, col+2)})
+				pc.Steps = append(pc.Steps, proto.Step{M: "textDocument/completion", P: compParams(f, ln, col+np+1)})
 				cu.stepP2 = len(pc.Steps) - 1
 				if p.col < 0 {
-					pc.Steps = append(pc.Steps, changeStep(f, ver, ln, col-1, ln, col+2, ""))
+					pc.Steps = append(pc.Steps, changeStep(f, ver, ln, col-1, ln, col+np+1, ""))
 				} else {
-					pc.Steps = append(pc.Steps, changeStep(f, ver, ln, col, ln, col+3, ""))
+					pc.Steps = append(pc.Steps, changeStep(f, ver, ln, col, ln, col+np+2, ""))
 				}
 				ver++
 				d.cur = append(d.cur, cu)
 				continue
 			}
 			// an editor types "p" on a fresh line, asks, types one more letter, asks, then the line is removed
-			pc.Steps = append(pc.Steps, changeStep(f, ver, p.line, 0, p.line, 0, "p\n"))
+			pc.Steps = append(pc.Steps, changeStep(f, ver, p.line, 0, p.line, 0, pre+"\n"))
 			ver++
-			pc.Steps = append(pc.Steps, proto.Step{M: "textDocument/completion", P: compParams(f, p.line, 1)})
+			pc.Steps = append(pc.Steps, proto.Step{M: "textDocument/completion", P: compParams(f, p.line, np)})
 			cu.stepP = len(pc.Steps) - 1
-			pc.Steps = append(pc.Steps, changeStep(f, ver, p.line, 1, p.line, 1, cu.prefix2[1:]))
+			pc.Steps = append(pc.Steps, changeStep(f, ver, p.line, np, p.line, np, cu.prefix2[np:]))
 			ver++
-			pc.Steps = append(pc.Steps, proto.Step{M: "textDocument/completion", P: compParams(f, p.line, 2)})
+			pc.Steps = append(pc.Steps, proto.Step{M: "textDocument/completion", P: compParams(f, p.line, np+1)})
 			cu.stepP2 = len(pc.Steps) - 1
 			pc.Steps = append(pc.Steps, changeStep(f, ver, p.line, 0, p.line+1, 0, ""))
 			ver++
@@ -223,16 +241,26 @@ func c14Build(seed int64) func(id int, raw json.RawMessage) *Job {
 				if it.hasVisX {
 					cu.vis = it.VisX
 				}
-				cu.prefix2 = "p" + string(rune('a'+int(hv>>7)%3))
-				pc.Steps = append(pc.Steps, changeStep(f, ver, o.Line, o.Col, o.Line, o.Col+len(o.Name), "p"))
+				if kw {
+					// the cursor stands inside the existing identifier, behind its leading word and behind the next letter
+					cu.prefix2 = o.Name[:np+1]
+					pc.Steps = append(pc.Steps, proto.Step{M: "textDocument/completion", P: compParams(f, o.Line, o.Col+np)})
+					cu.stepP = len(pc.Steps) - 1
+					pc.Steps = append(pc.Steps, proto.Step{M: "textDocument/completion", P: compParams(f, o.Line, o.Col+np+1)})
+					cu.stepP2 = len(pc.Steps) - 1
+					d.cur = append(d.cur, cu)
+					continue
+				}
+				cu.prefix2 = pre + string(rune('a'+int(hv>>7)%3))
+				pc.Steps = append(pc.Steps, changeStep(f, ver, o.Line, o.Col, o.Line, o.Col+len(o.Name), pre))
 				ver++
-				pc.Steps = append(pc.Steps, proto.Step{M: "textDocument/completion", P: compParams(f, o.Line, o.Col+1)})
+				pc.Steps = append(pc.Steps, proto.Step{M: "textDocument/completion", P: compParams(f, o.Line, o.Col+np)})
 				cu.stepP = len(pc.Steps) - 1
-				pc.Steps = append(pc.Steps, changeStep(f, ver, o.Line, o.Col+1, o.Line, o.Col+1, cu.prefix2[1:]))
+				pc.Steps = append(pc.Steps, changeStep(f, ver, o.Line, o.Col+np, o.Line, o.Col+np, cu.prefix2[np:]))
 				ver++
-				pc.Steps = append(pc.Steps, proto.Step{M: "textDocument/completion", P: compParams(f, o.Line, o.Col+2)})
+				pc.Steps = append(pc.Steps, proto.Step{M: "textDocument/completion", P: compParams(f, o.Line, o.Col+np+1)})
 				cu.stepP2 = len(pc.Steps) - 1
-				pc.Steps = append(pc.Steps, changeStep(f, ver, o.Line, o.Col, o.Line, o.Col+2, o.Name))
+				pc.Steps = append(pc.Steps, changeStep(f, ver, o.Line, o.Col, o.Line, o.Col+np+1, o.Name))
 				ver++
 				d.cur = append(d.cur, cu)
 			}
@@ -296,17 +324,17 @@ func c14Judge(c *Ctx, j *Job, res *proto.Result) {
 	}
 	allLocal := map[string]bool{}
 	for id := 1; id <= d.tc.NDecl; id++ {
-		allLocal[c14Name(id)] = true
+		allLocal[c14NameP(d.pre, id)] = true
 	}
 	// global definitions are numbered too, but are spelled pg<name>
 	globals := map[string]bool{}
 	for _, g := range d.tc.GDefs {
-		globals[c14Global(g.N)] = true
-		delete(allLocal, c14Name(g.ID))
+		globals[c14GlobalP(d.pre, g.N)] = true
+		delete(allLocal, c14NameP(d.pre, g.ID))
 	}
 	for _, cu := range d.cur {
 		for k, step := range []int{cu.stepP, cu.stepP2} {
-			prefix := "p"
+			prefix := d.pre
 			if k == 1 {
 				prefix = cu.prefix2
 			}
@@ -321,7 +349,7 @@ func c14Judge(c *Ctx, j *Job, res *proto.Result) {
 			}
 			vis := map[string]bool{}
 			for _, id := range cu.vis {
-				vis[c14Name(id)] = true
+				vis[c14NameP(d.pre, id)] = true
 			}
 			var prob []string
 			for n := range vis {
@@ -336,7 +364,7 @@ func c14Judge(c *Ctx, j *Job, res *proto.Result) {
 			}
 			pend := map[string]bool{}
 			for _, id := range cu.pend {
-				pend[c14Name(id)] = true
+				pend[c14NameP(d.pre, id)] = true
 			}
 			for l := range got {
 				if allLocal[l] && !vis[l] {
@@ -347,7 +375,7 @@ func c14Judge(c *Ctx, j *Job, res *proto.Result) {
 					if cu.expr {
 						// the statement's own new declaration offered inside its initialiser / bounds (known findings)
 						it := d.items[cu.item]
-						own := l == c14Name(it.ID) || (it.K == "local2" && l == c14Name(it.Mid))
+						own := l == c14NameP(d.pre, it.ID) || (it.K == "local2" && l == c14NameP(d.pre, it.Mid))
 						if own && (it.K == "local" || it.K == "local2") {
 							c.Rep.Deviation("Dev_InitialiserSeesNewLocal", fmt.Sprintf("completion inside the initialiser of local %s offers %s itself\n%s", l, l, progText(d.r)), j.Raw)
 							continue
